@@ -10,7 +10,7 @@ THEOREMS = ["C02_ident_dec_enc", "C02_commit_dec_enc", "C02_commit_enc_dec_bytes
             "C02_tag_dec_enc", "C02_tag_enc_dec_bytes", "C02_tag_reencode_refuted", "C02_message_matches_git", "C02_ident_matches_git_partial", "C02_ident_matches_git_refuted",
             "C02_fields_match_git_refuted", "C02_commit_fields_match_git_partial", "C02_tag_fields_match_git_partial",
             "C02_tag_fields_match_git_refuted", "C02_extras_match_git_refuted", "C02_extras_match_git_partial",
-            "C02_commit_sigs_match_git_partial"]
+            "C02_commit_sigs_match_git_partial", "C02_commit_all_fields_match_git_partial"]
 MODEL_FILES = ["ObjLines.v", "Ident.v", "Commit.v", "Tag.v"]
 MODELLED = ("plumbing/object/commit_scanner.go: the whole stateFn decoder (scanTree, scanParents, scanAuthor, scanCommitter, scanHeaders, "
             "scanPgpCont/scanPgp256Cont/continuationCont, scanExtraCont, finaliseExtra, scanMessage, push-back, sawEncoding, splitHeader, "
